@@ -63,7 +63,7 @@ def exc_tag(e):
 
 def parse_script(s):
     out = []
-    if s != "-":
+    if s != ".":
         for p in s.split(","):
             t, h = p.split("@")
             out.append((int(t), unhx(h)))
@@ -80,7 +80,7 @@ def _run_case(line: str) -> str:
     toks = line.split()
     chunk, slice_, script, accept = int(toks[0]), int(toks[1]), parse_script(toks[2]), toks[3]
     ops = toks[4:]
-    accept = [] if accept == "-" else [int(x) for x in accept.split(",")]
+    accept = [] if accept == "." else [int(x) for x in accept.split(",")]
     vclock.CLOCK.reset(0)
     io = mockio.ScriptIO(script, accept)
     ch = tch.Channel(io)
@@ -166,7 +166,7 @@ def do_op(ch, f, fwd, frames):
     if k == "rl":
         return "t:" + chars(ch.readline(timeout=secs(f[2]), lineending=unhx(f[1])))
     if k == "ex":
-        pats = [] if f[2] == "-" else [regen.pat_of_wire(p) for p in f[2].split(",")]
+        pats = [] if f[2] == "." else [regen.pat_of_wire(p) for p in f[2].split(",")]
         r = ch.expect([p.api() for p in pats], timeout=secs(f[1]))
         m = r.match
         if isinstance(m, str):
